@@ -6,7 +6,8 @@
 From Coq Require Import List Arith.
 From GV.lib Require Import Semiring BigSum.
 From GV.model Require Import Cfg Wfsa WfsaEps.
-From GV.proofs Require Import WfsaProofs RationalOps.
+From GV.gen Require Import Gen_Wfsa.
+From GV.proofs Require Import WfsaProofs RationalOps GenWfsaBridge.
 Import ListNotations.
 
 Theorem C12_union : forall (S : SR) (a b : wfsa S) xs, weight (wunion a b) xs = sadd (weight a xs) (weight b xs).
@@ -45,3 +46,18 @@ Theorem C12_one_zero_lift : forall (S : SR),
   (forall (x : nat) (w : S) xs, weight (wlift (Some x) w) xs = match xs with [y] => if Nat.eqb x y then w else s0 | _ => s0 end).
 Proof. intros S. split; [intros; apply one_pathsum; assumption|split; [apply zero_weight|apply lift_weight]]. Qed.
 Print Assumptions C12_one_zero_lift.
+
+(* The constructions the theorems above are about are the ones the code performs: the definitions
+   regenerated from wfsa/base.py (rename, reverse, __add__, __mul__, kleene_plus, star, lift, one, zero,
+   through spawn and rename_apart) on every run coincide with the model. *)
+Theorem C12_code_is_model : forall (S : SR) (a b : wfsa S) (f : nat -> nat) (x : option nat) (w : S),
+  gen_add S a b = wunion a b /\ gen_mul S a b = wconcat a b /\ gen_kleene_plus S a = wplus a /\
+  gen_star S a = wstar a /\ gen_reverse S a = wreverse a /\ gen_rename S f a = rename f a /\
+  gen_lift S x w = wlift x w /\ gen_one S = wone /\ gen_zero S = wzero.
+Proof.
+  intros S a b f x w.
+  exact (conj (gen_add_model S a b) (conj (gen_mul_model S a b) (conj (gen_kleene_plus_model S a)
+        (conj (gen_star_model S a) (conj (gen_reverse_model S a) (conj (gen_rename_model S f a)
+        (conj (gen_lift_model S x w) (conj (gen_one_model S) (gen_zero_model S))))))))).
+Qed.
+Print Assumptions C12_code_is_model.
